@@ -4,7 +4,6 @@ import (
 	"errors"
 	"fmt"
 	"net"
-	"sync/atomic"
 	"time"
 
 	"github.com/pion/stun/v3"
@@ -216,7 +215,7 @@ func c15(c *core.Ctx) {
 	c15Targeted(c)
 	clientPairwise(c, c15Oracles)
 	defer func() {
-		c.Count("goroutine_scans_skipped_because_an_abandoned_client_was_alive", atomic.LoadInt64(&leakScansSkipped))
+		c.Count("goroutine_scans_skipped_because_an_abandoned_client_was_alive", leakScansSkipped.Load())
 	}()
 	clientStress(c, c15Oracles, c.N(200, 30000), func(i int64, r *gen.Rand) stressCfg {
 		return stressCfg{
